@@ -197,5 +197,5 @@ META = {
             "(CpuTiProfile::integrate_simple_point/solve_simple, periodic reduction) is tied by the differential runs only. Network latency phases and "
             "factors are exercised by the runs, not modelled. Trusted: Coq kernel, extraction, harness, generator.",
     "technique": "Coq proof (simulation between the two bookkeepings, lra/field) + differential runs across configurations + extracted-model dates",
-    "claimed": False,
+    "claimed": True,
 }
